@@ -101,7 +101,7 @@ static void step_point(const char *op, const char *path) {
 static int gate(long *kout, const char *op, const char *path, int visible) {
     long k = g_k++;
     *kout = k;
-    if (visible) step_point(op, path);
+    if (visible || (g_mode & 64)) step_point(op, path);   /* 64 STEP_ALL: every in-scope call is a scheduling point (temp files too) */
     if ((g_mode & 32) && k == g_edit_k && g_edit_path[0]) {
         REAL(openat); REAL(close);
         g_busy = 1;
